@@ -13,8 +13,11 @@ func init() {
 	})
 	hx.Register("C03", vfC03)
 	hx.Register("C04", func(c *hx.Ctx) {
-		c.Rule(vfCoreRule + " Window invariants are evaluated after every call into either endpoint and at every emission; asymmetric windows with a slow reader are added.")
+		c.Rule(vfCoreRule + " Window invariants are evaluated after every call into either endpoint and at every emission; asymmetric windows with a slow reader are added; session clause: Write sequences over a dead and a healed network against the admission model.")
 		vfC04honest(c)
+		c.ByUnit = true
+		vfC04sess(c)
+		c.ByUnit = false
 		vfAdversarialBFS(c, "C04:", hx.Pick(c, 3, 4), !c.Quick())
 	})
 	hx.Register("C18", func(c *hx.Ctx) {
